@@ -91,6 +91,21 @@ def Inst.update (i : Inst) (k : Kind) (now : Option Nat) : Inst :=
       if k = .disposed ∨ k = .disposedUnregistered then { i with st := .disposed }
       else if k = .unregistered then { i with st := .noWriters }
       else i
+    | .disposed => if k = .alive then { i with st := .alive, dgc := i.dgc + 1, viewNew := true } else i
+    | .noWriters => if k = .alive then { i with st := .alive, nwgc := i.nwgc + 1, viewNew := true } else i
+  match now with
+  | some t => { i1 with lastRecv := t }
+  | none => i1
+
+/-- `update_state` before the repair of D28 (view_state set NEW on dispose/unregister, never on rebirth);
+    kept only as the regression witness -/
+def Inst.updateOld (i : Inst) (k : Kind) (now : Option Nat) : Inst :=
+  let i1 : Inst :=
+    match i.st with
+    | .alive =>
+      if k = .disposed ∨ k = .disposedUnregistered then { i with st := .disposed }
+      else if k = .unregistered then { i with st := .noWriters }
+      else i
     | .disposed => if k = .alive then { i with st := .alive, dgc := i.dgc + 1 } else i
     | .noWriters => if k = .alive then { i with st := .alive, nwgc := i.nwgc + 1 } else i
   let i2 : Inst :=
@@ -335,7 +350,8 @@ def collTouch (coll : List Inst) (h : Nat) (k : Kind) : List Inst :=
 def consKept (s : Sample) (r : List Sample × List Info × List Inst) : List Sample × List Info × List Inst :=
   (s :: r.1, r.2)
 
-/-- SampleInfo of a selected sample (ranks still 0); `coll1` = collection instances after this sample -/
+/-- SampleInfo of a selected sample (ranks still 0); `coll1` = collection instances after this sample (only
+    their handles matter since the repair of D26b: absolute_generation_rank comes from the stored counts) -/
 def mkInfo (s : Sample) (i : Inst) (coll1 : List Inst) : Info :=
   { data := s.data
     read := s.read
@@ -345,7 +361,7 @@ def mkInfo (s : Sample) (i : Inst) (coll1 : List Inst) : Info :=
     nwgc := s.nwgc
     srank := 0
     grank := 0
-    agrank := (i.dgc + i.nwgc) - collGen coll1 s.inst
+    agrank := (i.dgc + i.nwgc) - (s.dgc + s.nwgc)
     sts := s.sts
     inst := s.inst
     pub := s.writer
